@@ -176,6 +176,33 @@ with spec_member_fields (m : mode) (ms : tys) (base cursor : N) : list N :=
 Definition spec_total (m : mode) (t : ty) : option N :=
   match spec_sa m t with Some (z, a) => Some (round_up z a) | None => None end.
 
+(* ---------- 32-bit sizes: the implementation computes in u32 with checked operations and answers "unknown size" when a
+   struct's running size, its rounded size or an array's size (or an array's length) does not fit ---------- *)
+Definition two32 : N := 4294967296.
+
+Fixpoint fits (m : mode) (t : ty) : bool :=
+  match t with
+  | TStruct ms =>
+      fits_members m ms 0 1 &&
+      match layout_members m ms 0 1 with Some (z, a) => round_up z a <? two32 | None => true end
+  | TArr t n =>
+      fits m t && (n <? two32) && match layout m t with Some (z, _) => z * n <? two32 | None => true end
+  | _ => true
+  end
+with fits_members (m : mode) (ms : tys) (size align : N) : bool :=
+  match ms with
+  | TNil => true
+  | TCons t r =>
+      fits m t &&
+      match layout m t with
+      | Some (z, a) =>
+          (round_up size a <? two32) && (round_up size a + z <? two32) && fits_members m r (round_up size a + z) (N.max align a)
+      | None => true
+      end
+  end.
+
+Definition check32 (t : ty) : verdict := if fits Hlsl t && fits Metal t then check t else Unknown.
+
 End Model.
 
 Arguments TScalar {scalar}.
